@@ -112,6 +112,28 @@ Proof.
 Qed.
 Print Assumptions C13_known_classes_refuted.
 
+(* K12, and the shapes of pull --rebase with pending attribution on which the modes agree: the working-log
+   rename of maybe_handle_pull_post_rewrite is an effect on BOTH of its exits (GenModes.pull_renames_before_early_exits) *)
+Theorem C13_pull_pending_refuted : wf_firing CPullRebase wit_K12 = true /\ Known_C13 CPullRebase wit_K12 = true /\
+  erase_shas (effects wit_K12 (fst (hook_events (git_fires CPullRebase wit_K12) (pre_state CPullRebase)))) <>
+  erase_shas (effects wit_K12 (wrap_events CPullRebase wit_K12)).
+Proof. exact refuted_K12. Qed.
+Print Assumptions C13_pull_pending_refuted.
+
+Example C13_pull_noop_autostash :
+  wf_firing CPullRebase wit_pull_noop_autostash = true /\ Known_C13 CPullRebase wit_pull_noop_autostash = false /\
+  effects wit_pull_noop_autostash (fst (hook_events (git_fires CPullRebase wit_pull_noop_autostash) init)) = [ERenameWorkingLog 10 20] /\
+  effects wit_pull_noop_autostash (wrap_events CPullRebase wit_pull_noop_autostash) = [ERenameWorkingLog 10 20].
+Proof. exact pull_noop_autostash_agrees. Qed.
+
+Example C13_pull_real_autostash :
+  wf_firing CPullRebase wit_pull_real_autostash = true /\ Known_C13 CPullRebase wit_pull_real_autostash = false /\
+  effects wit_pull_real_autostash (fst (hook_events (git_fires CPullRebase wit_pull_real_autostash) init)) =
+    [ERenameWorkingLog 10 21; ERebaseComplete 10 21 false [10] [21]] /\
+  effects wit_pull_real_autostash (wrap_events CPullRebase wit_pull_real_autostash) =
+    [ERenameWorkingLog 10 21; ERebaseComplete 10 21 false [10] [21]].
+Proof. exact pull_real_autostash_agrees. Qed.
+
 Example C13_nonvacuous : wf_firing CRebase wit_rebase2 = true /\ Known_C13 CRebase wit_rebase2 = false /\
   effects wit_rebase2 (wrap_events CRebase wit_rebase2) = [ERebaseComplete 12 22 false [11; 12] [21; 22]] /\
   effects wit_rebase2 (fst (hook_events (git_fires CRebase wit_rebase2) init)) = [ERebaseComplete 12 22 false [11; 12] [21; 22]].
